@@ -172,10 +172,10 @@ func (g *Gen) cmsDims() cmsCfg {
 	cols := g.Pick(1, 1, 2, 3, 5, 8, 16, 64, 257, 1000)
 	if g.Small {
 		cols = g.Pick(1, 2, 3, 5, 8)
-	} else if g.Chance(0.04) {
+	} else if g.Wide && g.Chance(0.04) {
 		// rarely: rows wider than 4096 cells (chunked Lua pushes, unpack limits; miniredis allows ~5100)
-		rows = g.Pick(1, 2)
-		cols = 4090 + g.Intn(950)
+		rows = 1
+		cols = 4090 + g.Intn(600)
 	}
 	return cmsCfg{rows, cols}
 }
@@ -394,22 +394,28 @@ func monitorCMS(backend string, prop string) Monitor {
 				}
 				got := o.U()
 				tc := s.counts[string(a[2].B)]
+				// the Redis variant keeps its cells as Lua numbers (IEEE doubles): once the stream total
+				// reaches 2^53 sums are rounded; violations there belong to that recorded regime
+				q := ""
+				if backend == "redis" && s.total >= 1<<53 {
+					q = "/total>=2^53"
+				}
 				fp := fmt.Sprintf("%d/%d/%s/%x", s.rows, s.cols, s.fingerprint(), a[2].B)
 				if prev, ok := seenCount[fp]; ok && prev != got {
-					out = append(out, MonViolation{backend + "/Count/differs-from-combined-stream",
+					out = append(out, MonViolation{backend + "/Count/differs-from-combined-stream" + q,
 						fmt.Sprintf("two sketches holding the same combined stream answer %d and %d", prev, got), step})
 				}
 				seenCount[fp] = got
 				if got < tc {
-					out = append(out, MonViolation{backend + "/Count/under-count",
+					out = append(out, MonViolation{backend + "/Count/under-count" + q,
 						fmt.Sprintf("Count=%d below true count %d", got, tc), step})
 				}
 				if got > s.total {
-					out = append(out, MonViolation{backend + "/Count/above-total",
+					out = append(out, MonViolation{backend + "/Count/above-total" + q,
 						fmt.Sprintf("Count=%d above stream total %d", got, s.total), step})
 				}
 				if len(s.counts) == 1 && tc > 0 && got != tc {
-					out = append(out, MonViolation{backend + "/Count/single-element-inexact",
+					out = append(out, MonViolation{backend + "/Count/single-element-inexact" + q,
 						fmt.Sprintf("single distinct element: Count=%d, true %d", got, tc), step})
 				}
 				if s.total == 0 && got != 0 {
